@@ -7,6 +7,7 @@ import ast
 
 import python_minifier
 from vf.stubs import ALL_OFF, pipeline, fresh_module
+from harness.C14 import do_minify_rule   # noqa: F401  (C16c: the CLI hands the bytes it read to the API untouched and writes its result as UTF-8)
 
 META = {
     'bounds': 'text sources |s| <= 6 (quick) / 7 (thorough) over all of Unicode; bytes sources: "#!" + x + newline + '
@@ -14,7 +15,8 @@ META = {
               'preserve_shebang symbolic bool',
     'outside': 'decoding of cookie/BOM/newline variants happens inside ast.parse(bytes) (C code, trusted); '
                'interpreters other than 3.12',
-    'stubs': ['python_minifier.ast_compat.parse -> returns an empty Module', 'python_minifier.unparse -> returns "P"'],
+    'stubs': ['python_minifier.ast_compat.parse -> returns an empty Module', 'python_minifier.unparse -> returns "P"',
+              'C16c: python_minifier.__main__.minify -> records the source it is given, returns an arbitrary str'],
     'assumptions': ['a source line ends at the first \\n or \\r (CPython tokenizer, universal newlines)',
                     'a bytes source without cookie/BOM is UTF-8; with a latin-1 cookie every byte is a character'],
 }
@@ -155,5 +157,7 @@ def obligations(tier, seed):
              public_replay='public_shebang_bytes'),
         dict(name='C16b.bytes_text_agree', fn='bytes_text_agree', shards=[['len(b) <= %d' % (n_x + 2)]], timeout=t,
              bounds='ASCII bytes |b| <= %d' % (n_x + 2)),
+        dict(name='C16c.cli_bytes', fn='do_minify_rule', shards=[['len(S) <= 3', 'len(m) <= 2']], timeout=t,
+             bounds='CLI: source bytes |S| <= 3 reach the API unchanged (CR, CRLF, BOM, any byte), result |m| <= 2 code points is written as UTF-8'),
         dict(name='C16b.no_shebang_after_bom', fn='no_shebang_after_bom', shards=[[]], timeout=t, bounds='|x| <= 4'),
     ]
